@@ -70,7 +70,8 @@ def FS (f : Nat) : Prop := ∀ d dm kind start st a b acc acc0, d < Tables.maxNe
 def FM (f : Nat) : Prop := ∀ d dm start ns st a b ks vs ks0 vs0, d < Tables.maxNestingDepth →
   eraseCacheL ks = eraseCacheL ks0 → eraseCacheL vs = eraseCacheL vs0 →
   (∀ y ∈ ks, VOK x.ctx.cfg (d + 1) y) → (∀ y ∈ ks0, VOK x.ctx.cfg (d + 1) y) →
-  (∀ y ∈ vs, VOK x.ctx.cfg (d + 1) y) → ks.length = vs.length →
+  (∀ y ∈ vs, VOK x.ctx.cfg (d + 1) y) → (∀ y ∈ vs0, VOK x.ctx.cfg (d + 1) y) → ks.length = vs.length →
+  ks0.length = vs0.length →
   RelF x.ctx.cfg d (readMapA x f d dm start ns st a b ks vs).1 (readMap x.ctx f d dm start ns st ks0 vs0)
 
 def F4 (RA : Nat → Bool → Nat → St → ASt → Res × ASt) (R0 : Nat → Bool → Nat → St → Res) : Prop :=
@@ -98,7 +99,7 @@ theorem RelF_value {cfg : Cfg} {d : Nat} {c : Bool} {st : St} {a1 a2 : ASt} {v v
   · exact RelF_nt rfl rfl
   · exact ⟨v0, rfl, h⟩
 
-theorem FS_succ (hreg : x.ctx.opts.registry = none) (f : Nat) (hV : FV x f) (hS : FS x f) : FS x (f + 1) := by
+theorem FS_succ (f : Nat) (hV : FV x f) (hS : FS x f) : FS x (f + 1) := by
   intro d dm kind start st a b acc acc0 hd he hacc hacc0
   rw [readSeqA, readSeq_succ]
   unfold rsStep
@@ -115,9 +116,8 @@ theorem FS_succ (hreg : x.ctx.opts.registry = none) (f : Nat) (hV : FV x f) (hS 
     cases ob with
     | none => exact RelF_nt rfl rfl
     | some b' =>
-      have hv0 := readValue_inv x.ctx hreg f (d + 1) dm st st' v0 (by omega) hr0
       exact hS d dm kind start st' a1 b' (v :: acc) (v0 :: acc0) hd (eraseCacheL_cons_congr g.er he)
-        (VOK_cons g.ok hacc) (VOK_cons hv0 hacc0)
+        (VOK_cons g.ok hacc) (VOK_cons g.ok0 hacc0)
   | err e st' =>
     refine RelF_eofconv hrel rfl rfl (fun e0 s0 hr hf => ?_)
     rw [hr]
@@ -140,13 +140,14 @@ theorem FS_succ (hreg : x.ctx.opts.registry = none) (f : Nat) (hV : FV x f) (hS 
         · simp only [Bool.not_true, Bool.false_eq_true, ↓reduceIte]
           have her := eraseCacheL_reverse_congr he
           have hr := VOK_reverse hacc
+          have hr0 := VOK_reverse hacc0
           by_cases h0 : (kind == 0) = true
           · simp only [if_pos h0]
-            exact RelF_value ⟨erase_list _ her, VOK_list _ _ hd hr, MdOK_of_none rfl, MdOK_of_none rfl⟩
+            exact RelF_value ⟨erase_list _ her, VOK_list _ _ hd hr, VOK_list _ _ hd hr0, MdOK_of_none rfl, MdOK_of_none rfl⟩
           · simp only [if_neg h0]
             by_cases h1 : (kind == 1) = true
             · simp only [if_pos h1]
-              exact RelF_value ⟨erase_vec _ her, VOK_vec _ _ hd hr, MdOK_of_none rfl, MdOK_of_none rfl⟩
+              exact RelF_value ⟨erase_vec _ her, VOK_vec _ _ hd hr, VOK_vec _ _ hd hr0, MdOK_of_none rfl, MdOK_of_none rfl⟩
             · simp only [if_neg h1]
               rcases hdq : hasDuplicatesA x acc.reverse a1 with ⟨⟨dup, ys⟩, a2⟩
               simp only
@@ -163,20 +164,21 @@ theorem FS_succ (hreg : x.ctx.opts.registry = none) (f : Nat) (hV : FV x f) (hS 
                     simp only at e1 e2
                     have e2' := e2 trivial
                     obtain ⟨w1, w2⟩ := hasDuplicatesF_erase x.ctx.cfg c' m' acc.reverse acc0.reverse her
-                      (Elems_of_VOK hr) (Elems_of_VOK (VOK_reverse hacc0))
+                      (Elems_of_VOK hr) (Elems_of_VOK hr0)
                     rw [← e1] at w1
+                    have hclose := VOK_set_close (cfg := x.ctx.cfg) start (x.ctx.pos r) hd hr0 w1.symm
                     rcases hd0 : hasDuplicates x.ctx.cfg acc0.reverse with ⟨dup0, ys0⟩
-                    rw [hd0] at w1 w2
+                    rw [hd0] at w1 w2 hclose
                     simp only at w1 w2 ⊢
                     rw [← w1]
                     simp only [Bool.false_eq_true, ↓reduceIte]
                     obtain ⟨k1, k2, -⟩ := dup_elems_VOK c' m' hd hr e1.symm
                     rw [← e2'] at k1 k2 w2
-                    exact ⟨_, rfl, erase_set _ w2, VOK_set _ _ hd k1 k2, MdOK_of_none rfl, MdOK_of_none rfl⟩
+                    exact ⟨_, rfl, erase_set _ w2, VOK_set _ _ hd k1 k2, hclose, MdOK_of_none rfl, MdOK_of_none rfl⟩
                 · exact RelF_nt rfl rfl
 
-theorem FM_succ (hreg : x.ctx.opts.registry = none) (f : Nat) (hV : FV x f) (hM : FM x f) : FM x (f + 1) := by
-  intro d dm start ns st a b ks vs ks0 vs0 hd hek hev hks hks0 hvs hl
+theorem FM_succ (f : Nat) (hV : FV x f) (hM : FM x f) : FM x (f + 1) := by
+  intro d dm start ns st a b ks vs ks0 vs0 hd hek hev hks hks0 hvs hvs0 hl hl0
   rw [readMapA, readMap_succ]
   unfold rmStep
   have hrel := hV (d + 1) dm st a (by omega)
@@ -223,15 +225,17 @@ theorem FM_succ (hreg : x.ctx.opts.registry = none) (f : Nat) (hV : FV x f) (hM 
                 obtain ⟨w1, w2⟩ := hasDuplicatesF_erase x.ctx.cfg c' m' ks.reverse ks0.reverse her
                   (Elems_of_VOK hr) (Elems_of_VOK (VOK_reverse hks0))
                 rw [← e1] at w1
+                have hclose := VOK_map_close (cfg := x.ctx.cfg) start (x.ctx.pos r) hd (VOK_reverse hks0)
+                  (VOK_reverse hvs0) (by rw [List.length_reverse, List.length_reverse, hl0]) w1.symm
                 rcases hd0 : hasDuplicates x.ctx.cfg ks0.reverse with ⟨dup0, ys0⟩
-                rw [hd0] at w1 w2
+                rw [hd0] at w1 w2 hclose
                 simp only at w1 w2 ⊢
                 rw [← w1]
                 simp only [Bool.false_eq_true, ↓reduceIte]
                 obtain ⟨k1, k2, k3⟩ := dup_elems_VOK c' m' hd hr e1.symm
                 rw [← e2'] at k1 k2 k3 w2
                 refine ⟨_, rfl, erase_map _ w2 (eraseCacheL_reverse_congr hev),
-                  VOK_map _ _ hd k1 (VOK_reverse hvs) k2 ?_, MdOK_of_none rfl, MdOK_of_none rfl⟩
+                  VOK_map _ _ hd k1 (VOK_reverse hvs) k2 ?_, hclose, MdOK_of_none rfl, MdOK_of_none rfl⟩
                 rw [k3, List.length_reverse, List.length_reverse, hl]
             · exact RelF_nt rfl rfl
   | ok k st' =>
@@ -263,8 +267,7 @@ theorem FM_succ (hreg : x.ctx.opts.registry = none) (f : Nat) (hV : FV x f) (hM 
         | none => exact RelF_nt rfl rfl
         | some b' =>
           simp only
-          have hk0 := readValue_inv x.ctx hreg f (d + 1) dm st st' k0 (by omega) hr0
-          have hv0 := readValue_inv x.ctx hreg f (d + 1) dm st' st'' v0 (by omega) hr2
+          have hk0 := gk.ok0
           have key : ∀ (k' k0' : Val), eraseCache k' = eraseCache k0' → VOK x.ctx.cfg (d + 1) k' →
               VOK x.ctx.cfg (d + 1) k0' →
               RelF x.ctx.cfg d (readMapA x f d dm start ns st'' a2 b' (k' :: ks) (v :: vs)).1
@@ -272,7 +275,8 @@ theorem FM_succ (hreg : x.ctx.opts.registry = none) (f : Nat) (hV : FV x f) (hM 
             intro k' k0' e1 e2 e3
             exact hM d dm start ns st'' a2 b' _ _ _ _ hd (eraseCacheL_cons_congr e1 hek)
               (eraseCacheL_cons_congr gv.er hev) (VOK_cons e2 hks) (VOK_cons e3 hks0) (VOK_cons gv.ok hvs)
-              (by rw [List.length_cons, List.length_cons, hl])
+              (VOK_cons gv.ok0 hvs0) (by rw [List.length_cons, List.length_cons, hl])
+              (by rw [List.length_cons, List.length_cons, hl0])
           cases ns with
           | none => exact key k k0 gk.er gk.ok hk0
           | some n =>
